@@ -1,12 +1,14 @@
 /-
 C04 helper lemmas, assembly: round trip per formatter class from
-`split(join(t)) = render t` (parts 2, 4, 5) and `parse(render t) = t` (part 3); the two witnesses of
-falsity (F04a Cisco, F04b RouterOS).
+`split(join(t)) = render t` (parts 2, 4, 5) and `parse(render t) = t` (part 3); witnesses that the two rules
+as they were before the fixes (F04a Cisco, F04b RouterOS) did not round-trip.
 -/
 import AnnetModel.Lemmas.FormatSplitOffside
 import AnnetModel.Lemmas.FormatSplitText
 import AnnetModel.Lemmas.FormatSplitJuniper
-import AnnetModel.Lemmas.FormatSplitRos
+import AnnetModel.Lemmas.FormatSplitRosJoin
+import AnnetModel.Lemmas.FormatSplitRosSplit
+import AnnetModel.Lemmas.FormatSplitRosParse
 
 namespace Annet.FormatSplit.Lemmas
 open Annet Annet.Offside Annet.FormatSplit
@@ -40,12 +42,14 @@ theorem roundtrip_nokia (w : Nat) (hw : 0 < w) (t : Cfg) (h : WF .nokia t = true
     exact h.1
   exact roundtrip_of_split _ w hw t s (rowOk .nokia) (rowOk_base .nokia) hwf hj hs
 
-theorem roundtrip_ros (w : Nat) (hw : 0 < w) (t : Cfg) (h : rosFlat t = true) :
+theorem roundtrip_ros (w : Nat) (hw : 0 < w) (t : Cfg) (h : rosTop t = true) :
     RoundTrip ⟨.ros, blanks w⟩ t :=
-  roundtrip_of_split _ w hw t (rosJoin (blanks w) t) (fun r => rowBase r.toList) (fun _ hr => hr)
-    (rosFlat_wf t h) rfl (ros_split_join w hw t h)
+  ⟨rosJoin (blanks w) t, rfl, by
+    simp only [parse, split]
+    rw [ros_join_text w t h, ros_split_text w hw t h]
+    simp only [Option.map_some, ros_parse_lines w hw t h]⟩
 
-/-- every formatter class, on its proved domain `WF` -/
+/-- every formatter class, on its whole well-formed domain `WF` -/
 theorem roundtrip_WF (k : Kind) (w : Nat) (hw : 0 < w) (t : Cfg) (h : WF k t = true) :
     RoundTrip ⟨k, blanks w⟩ t := by
   cases k with
@@ -77,30 +81,32 @@ theorem fixpoint_of_roundtrip (f : Fmt) (t : Cfg) (h : RoundTrip f t) : FixPoint
   obtain ⟨s, hj, hp⟩ := h
   exact ⟨s, t, hj, hp, hj⟩
 
-/-! ## witnesses of falsity -/
+/-! ## the rules before the two fixes were false: witnesses -/
 
-/-- F04a: `address-family a` followed by a sibling -/
+/-- F04a (before 13137d1): `address-family a` followed by a sibling -/
 def ciscoWitness : Cfg := .mk [("address-family a", .mk []), ("c", .mk [])]
 
-theorem ciscoWitness_parse :
-    parse (mkFormatter .cisco none) (commonJoin [' ', ' '] ciscoWitness)
-      = some (.ok (.mk [("address-family a", .mk [("c", .mk [])])])) := by
-  have hsplit : ciscoSplit (commonJoin [' ', ' '] ciscoWitness)
+theorem ciscoWitness_old_parse :
+    parseToTree comments ((ciscoSplitOld (commonJoin [' ', ' '] ciscoWitness)).map String.ofList)
+      = .ok (.mk [("address-family a", .mk [("c", .mk [])])]) := by
+  have hsplit : ciscoSplitOld (commonJoin [' ', ' '] ciscoWitness)
       = [blanks 0 ++ "address-family a".toList, blanks 1 ++ "c".toList] := by decide
-  simp only [parse, mkFormatter, split, hsplit, Option.map_some, parseToTree, List.map_cons, List.map_nil]
+  simp only [hsplit, parseToTree, List.map_cons, List.map_nil]
   rw [classify_line 0 "address-family a" (by decide), classify_line 1 "c" (by decide)]
   rfl
 
-/-- F04b: a section inside a section -/
+/-- F04b (before c926070): a section inside a section -/
 def rosWitness : Cfg := .mk [("ip", .mk [("address", .mk [("r", .mk [])])])]
 
-theorem rosWitness_parse :
-    parse (mkFormatter .ros none) (rosJoin [' ', ' '] rosWitness)
-      = some (.ok (.mk [("ip", .mk []), ("address", .mk [("r", .mk [])])])) := by
-  have hsplit : rosSplit [' ', ' '] (rosJoin [' ', ' '] rosWitness)
+theorem rosWitness_old_split :
+    rosSplit [' ', ' '] (rosJoinOld [' ', ' '] rosWitness)
       = some [blanks 0 ++ "ip".toList, blanks 0 ++ "address".toList, blanks 2 ++ "r".toList] := by decide
-  simp only [parse, mkFormatter, split, Option.getD_none, hsplit, Option.map_some, parseToTree, List.map_cons,
-    List.map_nil]
+
+theorem rosWitness_old_parse :
+    parseToTree comments
+        ([blanks 0 ++ "ip".toList, blanks 0 ++ "address".toList, blanks 2 ++ "r".toList].map String.ofList)
+      = .ok (.mk [("ip", .mk []), ("address", .mk [("r", .mk [])])]) := by
+  simp only [parseToTree, List.map_cons, List.map_nil]
   rw [classify_line 0 "ip" (by decide), classify_line 0 "address" (by decide),
     classify_line 2 "r" (by decide)]
   rfl
